@@ -43,7 +43,7 @@ class Improve(Suite):
                 s = opt_scheme(rng)
                 for v in vecs:
                     cases.append({"s": s, "D": D, "r0": v})
-        for _ in range(150 if tier == "quick" else 2500):
+        for _ in range(400 if tier == "quick" else 4000):
             D = gen.random_dataset(rng, 8, 5)
             n = len({e for r in D for b in r for e in b})
             r0 = rng.choice([v for v in [gen.random_ranking(rng, list(range(n)), 1.0, rng.choice([1.0, 0.5, 0.2]))]])
@@ -132,6 +132,66 @@ class Bio(Suite):
         except Exception as e:
             out["err"] = type(e).__name__ + ": " + str(e)[:100]
         return out
+
+    def escalate(self, tier, rng, disagreeing):
+        """the model and the library disagree (e.g. on the departure rankings) but no explored input violates the statement: look for
+        one. Candidates: the disagreeing datasets with their rankings duplicated / reordered, and tie-heavy datasets whose repeated
+        rankings come BEFORE later distinct ones, under every starter configuration; an untrusted pre-filter (the library's own Kemeny
+        score of the answer against the scores of the departures) keeps the promising ones; Coq judges them like any other case."""
+        from corankco.kemeny_score_computation import KemenyComputingFactory
+        from corankco.ranking import Ranking
+        budget = 1200 if tier == "quick" else 12000
+        cands = []
+        pool = [c for c in disagreeing if "D" in c][:40]
+        for _ in range(budget):
+            r = rng.random()
+            if pool and r < 0.4:
+                base = rng.choice(pool)
+                D = [[list(b) for b in rk] for rk in base["D"]]
+                rng.shuffle(D)
+                k = rng.randrange(len(D))
+                D = [D[k]] * rng.randint(1, 3) + D
+                s, st = base["s"], rng.choice([base["starters"], "none", "borda+copeland+pickaperm", "copeland+pickaperm+borda"])
+            else:
+                n = rng.randint(5, 7)
+                univ = list(range(n))
+
+                def coarse():
+                    # a ranking with 2-4 buckets: local search gets trapped between coarse rankings
+                    p = univ[:]
+                    rng.shuffle(p)
+                    cuts = sorted(rng.sample(range(1, n), rng.randint(1, 3)))
+                    return [p[i:j] for i, j in zip([0] + cuts, cuts + [n])]
+                distinct = [coarse() if rng.random() < 0.7 else gen.random_ranking(rng, univ, 1.0, 0.5) for _ in range(rng.randint(2, 3))]
+                D = []
+                for k, rk in enumerate(distinct):
+                    # the LAST distinct ranking is the majority (the good departure); the earlier ones are repeated too
+                    D += [[list(b) for b in rk]] * (rng.randint(3, 5) if k == len(distinct) - 1 else rng.randint(2, 3))
+                s, st = gen.UNIFYING, rng.choice(["none", "none", "borda+copeland+pickaperm", "copeland+pickaperm+borda"])
+            if st != "none" and st != "copeland":
+                s = bio_scheme(rng) if s not in (gen.UNIFYING,) else s
+            case = {"s": s, "D": D, "starters": st, "one": rng.random() < 0.4}
+            try:
+                out = self.run(case)
+                if "cons" not in out:
+                    continue
+                ds, sc = mk(case["D"], case["s"])
+                kc = KemenyComputingFactory(sc)
+                univ_elems = set(ds.universe)
+                deps = [Ranking([set(b) for b in rk]) for rk in out.get("starts", [])] if "starts" in out else \
+                    list(ds.unified_rankings()) + [Ranking([univ_elems])]
+                got = [kc.get_kemeny_score(Ranking([set(b) for b in rk]), ds) for rk in out["cons"]]
+                best_dep = min(kc.get_kemeny_score(d, ds) for d in deps)
+                if max(got) > best_dep + 1e-9 or max(got) - min(got) > 1e-9 or abs(out["raw"] - min(got)) > 1e-6:
+                    cands.append(case)
+                    if len(cands) >= 25:
+                        break
+            except Exception as e:
+                self.escalate_errors = getattr(self, "escalate_errors", 0) + 1
+                if self.escalate_errors <= 2:
+                    print("   (escalate: candidate skipped: " + type(e).__name__ + ": " + str(e)[:120] + ")")
+                continue
+        return cands
 
     def term(self, case, out):
         if "err" in out or out.get("score") is None:
